@@ -448,10 +448,16 @@ def main():
     # ---- second generation: Ethos-U operators of the first output passed through verbatim -------------------------------
     vb_owners = [o for o in owners if o.get("verbatim_line")]
     for o, ans in zip(vb_owners, ck.model([o["verbatim_line"] for o in vb_owners]) if vb_owners else []):
-        m = re.match(r"(ok|bad) ethosu_in=(\d+) ethosu_out=(\d+) new=(\d+) n=(\d+) ?(.*)", ans)
+        m = re.match(r"(ok|bad|pre) ethosu_in=(\d+) ethosu_out=(\d+) new=(\d+) n=(\d+) ?(.*)", ans)
         if not m:
             raise common.InfraError("unexpected ethosuverbatim answer: " + ans[:300])
         ck.count("second_generation_files")
+        if m.group(1) == "pre":
+            # the compiled input keeps the duplicate tensor names of its source: operators cannot be identified by their result
+            # names (the same domain restriction as `preserve`), counted and not judged
+            for p in m.group(6).split(" ~ "):
+                ck.count("second_generation_input_outside_domain_" + p.split("|")[0])
+            continue
         ck.count("generations_%d" % o["gen_count"])
         ck.count("second_generation_ethosu_operators_passed_through", int(m.group(2)))
         ck.count("second_generation_new_ethosu_operators", int(m.group(4)))
